@@ -471,6 +471,20 @@ func exBstr(ex map[string]any, k string) string {
 	return ""
 }
 
+// recoverTo3 / recoverTo4 are deferred at the top of an evaluator: a panic of the library while the case is evaluated
+// becomes a violation that carries the evaluator's own (replayable) case instead of an anonymous worker panic.
+func recoverTo3(add func(rule, class, detail string)) {
+	if p := recover(); p != nil {
+		add("no-panic", "panic:"+panicClass(fmt.Sprint(p)), fmt.Sprintf("panic: %v", p))
+	}
+}
+
+func recoverTo4(site string, add func(site, rule, class, detail string)) {
+	if p := recover(); p != nil {
+		add(site, "no-panic", "panic:"+panicClass(fmt.Sprint(p)), fmt.Sprintf("panic: %v", p))
+	}
+}
+
 // remarshal converts a decoded-JSON value (or an in-memory struct) into dst.
 func remarshal(src any, dst any) {
 	b, _ := json.Marshal(src)
